@@ -737,11 +737,11 @@ func init() {
 			return 96
 		},
 		Floors: map[string]int64{
-			"successful_executions": 1500, "events_checked": 3000, "values_checked": 6000, "destruction_events_matched": 600,
+			"successful_executions": 400, "events_checked": 2500, "values_checked": 6000, "destruction_events_matched": 600,
 			"feat:emit_param": 100, "feat:emit_literal": 40, "feat:emit_condition": 30, "feat:emit_iface-condition": 20, "feat:emit_init": 20, "feat:emit_local": 20,
 			"feat:emit_imported-call": 20, "feat:emit_script_level": 20,
 			"feat:destroy_with_attachments": 20, "feat:destroy_with_nested": 20, "feat:destroy_with_interface_event": 10, "feat:remove_attachment": 10,
-			"feat:load": 10, "feat:update_in_storage": 5, "feat:destroy_container": 10, "feat:destroy_by_replacement": 5,
+			"feat:load": 10, "feat:update_in_storage": 5, "feat:destroy_container": 10, "feat:destroy_by_replacement": 3,
 			"feat:ptype_integer": 100, "feat:ptype_fixed_point": 20, "feat:ptype_abstract_number": 20, "feat:ptype_string": 20, "feat:ptype_character": 20, "feat:ptype_bool": 20,
 			"feat:ptype_address": 20, "feat:ptype_path": 20, "feat:ptype_type": 20, "feat:ptype_optional": 40, "feat:ptype_array": 40, "feat:ptype_const_array": 10,
 			"feat:ptype_dictionary": 30, "feat:ptype_struct": 20, "feat:ptype_reference": 10,
